@@ -102,6 +102,7 @@ pub struct Stats {
     pub checks: u64,
     pub noncausal_gen: u64,
     pub misuse_clashes: u64,
+    pub foreign_reads: u64,
     pub stale_restarts: u64,
 }
 
@@ -132,6 +133,7 @@ impl Stats {
         self.checks += o.checks;
         self.noncausal_gen += o.noncausal_gen;
         self.misuse_clashes += o.misuse_clashes;
+        self.foreign_reads += o.foreign_reads;
         self.stale_restarts += o.stale_restarts;
     }
     pub fn faults_fired(&self) -> u64 {
@@ -506,6 +508,7 @@ impl<S: Sut> World<S> {
                         }
                         let (st, k) = (self.nodes[*f].state.clone().unwrap(), self.nodes[*f].k);
                         self.nodes[*node].held = Some(Held { state: st, k, issued_at: u32::MAX });
+                        self.stats.foreign_reads += 1;
                     }
                     _ => {
                         let x = &mut self.nodes[*node];
@@ -838,6 +841,13 @@ impl<S: Sut> World<S> {
             let st = self.nodes[node].state.as_ref().unwrap();
             let v = guard(|| st.validate_op(&op));
             let exp_ok = crate::probes::expect_validate_ok(&self.family, &self.aops, k, ix, self.nodes[node].last_obs.as_ref());
+            if let (Ok(vv), Some(false)) = (&v, exp_ok) {
+                if self.cfg.on("validate.payload") {
+                    if let Some(why) = crate::probes::check_gap_payload(&self.family, &self.aops, k, ix, vv) {
+                        return self.fail("validate.payload", format!("node {} K={:x}: validate_op({}): {}", node, k, S::op_dbg(&op), why));
+                    }
+                }
+            }
             match (v, exp_ok) {
                 (Ok(Verdict::Ok), Some(true)) | (Ok(Verdict::Err { .. }), Some(false)) | (Ok(_), None) => {}
                 (Ok(v), Some(e)) => {
